@@ -170,16 +170,39 @@ def inc_driver(cfg):
     return driver
 
 
+def zero():
+    return F(0)
+
+
+def sparse_row(i, names):
+    """Observation i as a sparse collections.defaultdict (absent feature = 0): odd rows lack the last feature, even rows the
+    first. The library must treat it exactly like the dense dict with explicit zeros."""
+    import collections
+    r = row(i, names)
+    del r[names[-1] if i % 2 else names[0]]
+    return collections.defaultdict(zero, r)
+
+
 def batch_driver(cfg):
     names = names_for(cfg['d'])
 
     def driver(run):
         from ixai.explainer import BatchSage, IntervalSage
+        import copy as _copy
         log = EventLog()
         model = Model(names, cfg['model'], None, log)
         loss = Loss(cfg['model'], 'poly', log)
         ys = YS if cfg['model'] == 'scalar' else YS_MULTI
         data = [(row(i, names), ys[i]) for i in range(cfg['N'])]
+        if cfg.get('sparse'):
+            model.sparse_ok = True
+            data = [(sparse_row(i, names), ys[i]) for i in range(cfg['N'])]
+            ex = BatchSage(model, list(names), loss, n_inner_samples=cfg['n'])
+            for x, y in data:
+                ex.update_storage(x, y)
+            xs, yl = [x for x, _ in data], [y for _, y in data]
+            res = ex.explain_many_original(xs, yl, verbose=False) if cfg['original'] else ex.explain_many(xs, yl, verbose=False)
+            return (), None, dict(res), None
         if cfg['kind'] == 'interval':
             ex = IntervalSage(model, list(names), loss, n_inner_samples=cfg['n'], interval_length=1,
                               storage_length=cfg['N'])
@@ -211,6 +234,9 @@ def reference_batch(cfg):
     loss = Loss(cfg['model'], 'poly', EventLog())
     ys = YS if cfg['model'] == 'scalar' else YS_MULTI
     data = [(row(i, names), ys[i]) for i in range(cfg['N'])]
+    if cfg.get('sparse'):       # the dense equivalent: absent feature = explicit 0
+        data = [({n: (sparse_row(i, names)[n] if n in sparse_row(i, names) else F(0)) for n in names}, ys[i])
+                for i in range(cfg['N'])]
     rows = [x for x, _ in data]
     mp = mean_prediction([model.f(x) for x in rows])
     tot = {f: 0 for f in names}
@@ -273,6 +299,7 @@ def plan(tier):
                 continue        # 4.3 M leaves (25 core-minutes): out of budget
             tasks.append(('batch', dict(kind='batch', original=original, d=d, N=N, n=n, model='scalar')))
         tasks.append(('batch', dict(kind='batch-explain-one', original=original, d=2, N=2, n=2, model='scalar')))
+        tasks.append(('batch', dict(kind='batch', original=original, d=2, N=3, n=1, model='scalar', sparse=True)))
         tasks.append(('batch', dict(kind='batch', original=original, d=2, N=2, n=1, model='multi')))
     for (d, N, n) in [(2, 2, 1), (2, 2, 2), (3, 2, 1)] + ([(2, 3, 1)] if deep else []):
         tasks.append(('batch', dict(kind='interval', original=False, d=d, N=N, n=n, model='scalar')))
